@@ -37,6 +37,8 @@ mod t_instr;
 mod t_journal;
 mod t_memory;
 mod t_stack;
+mod t_static;
+mod t_env;
 mod t_bytecode;
 mod t_precompile;
 
@@ -57,6 +59,8 @@ fn registry() -> Vec<Case> {
     v.extend(t_memory::cases());
     v.extend(t_bytecode::cases());
     v.extend(t_stack::cases());
+    v.extend(t_static::cases());
+    v.extend(t_env::cases());
     v
 }
 
